@@ -30,9 +30,11 @@ func newRecordingStorer() *recordingStorer {
 	return &recordingStorer{inner: variable.NewInMemoryStorer()}
 }
 
-func (s *recordingStorer) GetValue(name string) (*variable.Value, bool) { return s.inner.GetValue(name) }
-func (s *recordingStorer) GetValues() map[string]variable.Value         { return s.inner.GetValues() }
-func (s *recordingStorer) Contains(name string) bool                    { return s.inner.Contains(name) }
+func (s *recordingStorer) GetValue(name string) (*variable.Value, bool) {
+	return s.inner.GetValue(name)
+}
+func (s *recordingStorer) GetValues() map[string]variable.Value { return s.inner.GetValues() }
+func (s *recordingStorer) Contains(name string) bool            { return s.inner.Contains(name) }
 func (s *recordingStorer) SetNumberValue(name string, v float64) {
 	s.log = append(s.log, sx.Tag("setn", sx.Str(name), sx.Uint(canonBits(v))))
 	s.inner.SetNumberValue(name, v)
@@ -347,93 +349,10 @@ func runRunnerCase(c *sx.Node) *sx.Node {
 		}
 		runners = append(runners, h)
 	}
-	snaps := map[int]*ysgo.Snapshot{}
+	st := &execState{runners: runners, snaps: map[int]*ysgo.Snapshot{}}
 	obs := []*sx.Node{}
 	for _, op := range c.L[10].Args() {
-		switch op.TagName() {
-		case "next":
-			obs = append(obs, runners[op.L[1].Int()].next(int(op.L[2].Int())))
-		case "hset":
-			h := runners[op.L[1].Int()]
-			v := decValue(op.L[3])
-			if h.storer != nil {
-				switch {
-				case v.Number != nil:
-					h.storer.SetNumberValue(op.L[2].Text(), *v.Number)
-				case v.Boolean != nil:
-					h.storer.SetBooleanValue(op.L[2].Text(), *v.Boolean)
-				case v.String != nil:
-					h.storer.SetStringValue(op.L[2].Text(), *v.String)
-				}
-			}
-			obs = append(obs, sx.Tag("n"))
-		case "snap":
-			snaps[int(op.L[2].Int())] = runners[op.L[1].Int()].dr.Snapshot()
-			obs = append(obs, sx.Tag("n"))
-		case "readsnap":
-			s, ok := snaps[int(op.L[1].Int())]
-			if !ok {
-				obs = append(obs, sx.Tag("nosnap"))
-				break
-			}
-			obs = append(obs, sx.Tag("snap", sx.Str(s.CurrentNode), sx.List(encValues(s.Variables)...), sx.List(encCounts(s.VisitedNodes)...)))
-		case "restore":
-			h := runners[op.L[1].Int()]
-			s, ok := snaps[int(op.L[2].Int())]
-			if !ok {
-				obs = append(obs, sx.Tag("nosnap"))
-				break
-			}
-			var mark int
-			if h.storer != nil {
-				mark = len(h.storer.log)
-			}
-			err := func() (err error) {
-				defer func() {
-					if r := recover(); r != nil {
-						err = fmt.Errorf("panic: %v", r)
-					}
-				}()
-				return h.dr.RestoreAt(s)
-			}()
-			if h.storer != nil {
-				// the order in which RestoreAt replays the variables is Go's map order: canonicalise
-				block := h.storer.log[mark:]
-				if len(block) > 1 && block[0].TagName() == "clear" {
-					rest := block[1:]
-					sort.SliceStable(rest, func(i, j int) bool { return rest[i].L[1].Text() < rest[j].L[1].Text() })
-				}
-			}
-			// a restore abandons whatever command was pending
-			if err == nil {
-				h.pending = nil
-				h.waitSeen = false
-				obs = append(obs, sx.Tag("ok"))
-			} else if strings.HasPrefix(err.Error(), "panic:") {
-				obs = append(obs, sx.Tag("panic"))
-			} else {
-				obs = append(obs, sx.Tag("err"))
-			}
-		case "mksnap":
-			s := &ysgo.Snapshot{CurrentNode: op.L[2].Text(), Variables: map[string]variable.Value{}, VisitedNodes: map[string]int{}}
-			for _, kv := range op.L[3].L {
-				s.Variables[kv.L[0].Text()] = *decValue(kv.L[1])
-			}
-			for _, kv := range op.L[4].L {
-				s.VisitedNodes[kv.L[0].Text()] = int(kv.L[1].Int())
-			}
-			snaps[int(op.L[1].Int())] = s
-			obs = append(obs, sx.Tag("n"))
-		case "vals":
-			h := runners[op.L[1].Int()]
-			if h.storer != nil {
-				obs = append(obs, sx.Tag("vals", encValues(h.storer.GetValues())...))
-			} else {
-				obs = append(obs, sx.Tag("vals"))
-			}
-		default:
-			obs = append(obs, sx.Tag("BADCASE", sx.Str("unknown op")))
-		}
+		obs = append(obs, st.apply(op))
 	}
 	finals := []*sx.Node{}
 	for _, h := range runners {
@@ -444,4 +363,96 @@ func runRunnerCase(c *sx.Node) *sx.Node {
 		finals = append(finals, sx.Tag("runner", sx.List(h.log...), sx.List(slog...)))
 	}
 	return sx.Tag("res", append([]*sx.Node{sx.Tag("load", sx.Str("ok")), sx.List(obs...), sx.List(finals...)}, astNote...)...)
+}
+
+// execState: the runners and snapshot objects of one case; apply performs one operation and returns
+// what it observed. The executor and the adaptive generator share it.
+type execState struct {
+	runners []*hostRunner
+	snaps   map[int]*ysgo.Snapshot
+}
+
+func (st *execState) apply(op *sx.Node) *sx.Node {
+	switch op.TagName() {
+	case "next":
+		return (st.runners[op.L[1].Int()].next(int(op.L[2].Int())))
+	case "hset":
+		h := st.runners[op.L[1].Int()]
+		v := decValue(op.L[3])
+		if h.storer != nil {
+			switch {
+			case v.Number != nil:
+				h.storer.SetNumberValue(op.L[2].Text(), *v.Number)
+			case v.Boolean != nil:
+				h.storer.SetBooleanValue(op.L[2].Text(), *v.Boolean)
+			case v.String != nil:
+				h.storer.SetStringValue(op.L[2].Text(), *v.String)
+			}
+		}
+		return (sx.Tag("n"))
+	case "snap":
+		st.snaps[int(op.L[2].Int())] = st.runners[op.L[1].Int()].dr.Snapshot()
+		return (sx.Tag("n"))
+	case "readsnap":
+		s, ok := st.snaps[int(op.L[1].Int())]
+		if !ok {
+			return (sx.Tag("nosnap"))
+		}
+		return (sx.Tag("snap", sx.Str(s.CurrentNode), sx.List(encValues(s.Variables)...), sx.List(encCounts(s.VisitedNodes)...)))
+	case "restore":
+		h := st.runners[op.L[1].Int()]
+		s, ok := st.snaps[int(op.L[2].Int())]
+		if !ok {
+			return (sx.Tag("nosnap"))
+		}
+		var mark int
+		if h.storer != nil {
+			mark = len(h.storer.log)
+		}
+		err := func() (err error) {
+			defer func() {
+				if r := recover(); r != nil {
+					err = fmt.Errorf("panic: %v", r)
+				}
+			}()
+			return h.dr.RestoreAt(s)
+		}()
+		if h.storer != nil {
+			// the order in which RestoreAt replays the variables is Go's map order: canonicalise
+			block := h.storer.log[mark:]
+			if len(block) > 1 && block[0].TagName() == "clear" {
+				rest := block[1:]
+				sort.SliceStable(rest, func(i, j int) bool { return rest[i].L[1].Text() < rest[j].L[1].Text() })
+			}
+		}
+		// a restore abandons whatever command was pending
+		if err == nil {
+			h.pending = nil
+			h.waitSeen = false
+			return (sx.Tag("ok"))
+		} else if strings.HasPrefix(err.Error(), "panic:") {
+			return (sx.Tag("panic"))
+		} else {
+			return (sx.Tag("err"))
+		}
+	case "mksnap":
+		s := &ysgo.Snapshot{CurrentNode: op.L[2].Text(), Variables: map[string]variable.Value{}, VisitedNodes: map[string]int{}}
+		for _, kv := range op.L[3].L {
+			s.Variables[kv.L[0].Text()] = *decValue(kv.L[1])
+		}
+		for _, kv := range op.L[4].L {
+			s.VisitedNodes[kv.L[0].Text()] = int(kv.L[1].Int())
+		}
+		st.snaps[int(op.L[1].Int())] = s
+		return (sx.Tag("n"))
+	case "vals":
+		h := st.runners[op.L[1].Int()]
+		if h.storer != nil {
+			return (sx.Tag("vals", encValues(h.storer.GetValues())...))
+		} else {
+			return (sx.Tag("vals"))
+		}
+	default:
+		return (sx.Tag("BADCASE", sx.Str("unknown op")))
+	}
 }
